@@ -134,6 +134,14 @@ func (hp *holePuncher) directConnect(rp peer.ID) error {
 
 	// hole punch
 	for i := 1; i <= maxRetries; i++ {
+		// A direct connection may have appeared meanwhile (e.g. the remote's own dial landed
+		// while ours timed out). Hole punching is coordinated over the relayed connection only:
+		// with a direct connection there is nothing left to do, and the coordination stream
+		// would be opened over the direct connection.
+		if getDirectConnection(hp.host, rp) != nil {
+			log.Debug("direct connection appeared, no need for a hole punch", "destination_peer", rp)
+			return nil
+		}
 		isClient := false
 		// On the last attempt we switch roles in case the connection is
 		// being made with a client with switched roles. Common for peers
